@@ -59,7 +59,7 @@ class RepoIndex:
             m = m[: -len(".__init__")]
         return m
 
-    def find_function(self, modname: str, qualname: str) -> ast.FunctionDef:
+    def find_function(self, modname: str, qualname: str, lineno: int | None = None) -> ast.FunctionDef:
         mod = self.modules[modname]
         parts = qualname.split(".")
         body = mod.body
@@ -68,6 +68,10 @@ class RepoIndex:
             found = None
             for n in body:
                 if isinstance(n, (ast.FunctionDef, ast.ClassDef, ast.AsyncFunctionDef)) and n.name == part:
+                    if i == len(parts) - 1 and lineno is not None and isinstance(n, ast.FunctionDef):
+                        first = min([n.lineno] + [d.lineno for d in n.decorator_list])
+                        if not (first <= lineno <= n.lineno):
+                            continue
                     found = n
             if found is None:
                 # nested function inside a function body: search all statements recursively
